@@ -86,7 +86,9 @@ def static_case(rnd, M):
     sol = numpy.linalg.solve(matrix, pa).reshape(d)
     if not (abs(kin - 0.5 * float(pa.reshape(d) @ sol)) <= tol * max(1.0, abs(kin))):
         out.append((f"kinetic-energy-{kind}", f"{desc}: kinetic_energy({p}) = {kin}, 1/2 p^T M^-1 p = {0.5 * float(pa.reshape(d) @ sol)}"))
-    if not numpy.allclose(kg, sol, rtol=tol, atol=1e-12):
+    # (a component that is the difference of two large terms is exact only relative to the size of the whole vector)
+    if not (kg.shape == sol.shape and float(numpy.max(numpy.abs(kg - sol))) <= tol * float(numpy.max(numpy.abs(sol))) + 1e-12 * (1.0 if float(numpy.max(numpy.abs(sol))) < 1e6 else 0.0)
+            or numpy.allclose(kg, sol, rtol=tol, atol=1e-12)):
         out.append((f"kinetic-gradient-{kind}", f"{desc}: kinetic_energy_gradient({p}) = {kg.tolist()}, M^-1 p = {sol.tolist()}"))
     if math.isfinite(kin) and numpy.all(numpy.isfinite(kg)):
         if kind in ("unit", "diagonal"):
@@ -97,7 +99,9 @@ def static_case(rnd, M):
             P = numpy.linalg.inv(matrix)
             ftol = 1e-4 if "float32" in desc else 1e-8       # float32 input: the factorisation runs in single precision
             goals.append(goal(f"misfit (kin_full {qm(P.tolist())}) {ql(p)}", kin, ftol))
-            goals += [goal(f"nth {i} (gradient (kin_full {qm(P.tolist())}) {ql(p)}) 0", kg[i], ftol) for i in range(d)]
+            # (tolerance of each component relative to the size of the whole vector: a component may be the difference of large terms)
+            gmax = float(numpy.max(numpy.abs(kg)))
+            goals += [goal(f"nth {i} (gradient (kin_full {qm(P.tolist())}) {ql(p)}) 0", kg[i], ftol, max(1e-12, ftol * gmax)) for i in range(d)]
     return kind, desc, out, goals
 
 
